@@ -116,6 +116,83 @@ func ruleC17R1(c *Ctx) {
 		})
 	}
 	c.floor("C17.R1", "guarded accesses", n, 15)
+	// every call on a downstream sink (a value loaded from a slot, in this function or returned by a helper of the
+	// run package that loads it) happens while the lock is held: the sink belongs to the orchestrator that a
+	// reload shuts down under the write lock
+	nCalls := 0
+	fromSlot := func(v ssa.Value) bool {
+		seen := map[ssa.Value]bool{}
+		var w func(v ssa.Value, d int) bool
+		w = func(v ssa.Value, d int) bool {
+			v = strip(v)
+			if v == nil || seen[v] || d > 12 {
+				return false
+			}
+			seen[v] = true
+			switch x := v.(type) {
+			case *ssa.UnOp:
+				if x.Op == token.MUL {
+					if fieldOf(x.X) == fDPtr {
+						return true
+					}
+					if u, ok := strip(x.X).(*ssa.UnOp); ok && u.Op == token.MUL && fieldOf(u.X) == fDPtr {
+						return true
+					}
+					if ia, ok := strip(x.X).(*ssa.IndexAddr); ok && fieldOf(ia.X) == fDSinks {
+						return true
+					}
+					if al, ok := strip(x.X).(*ssa.Alloc); ok {
+						for _, ref := range *al.Referrers() {
+							if st, ok := ref.(*ssa.Store); ok && st.Addr == al && w(st.Val, d+1) {
+								return true
+							}
+						}
+					}
+				}
+			case *ssa.Phi:
+				for _, e := range x.Edges {
+					if w(e, d+1) {
+						return true
+					}
+				}
+			case *ssa.Call:
+				if f := x.Common().StaticCallee(); f != nil && strings.HasPrefix(fnPkgPath(f), modPath+"/run") && f.Blocks != nil {
+					for _, rv := range returnedValues(f, 0) {
+						if w(rv.Val, d+1) {
+							return true
+						}
+					}
+				}
+			case *ssa.Extract:
+				return w(x.Tuple, d+1)
+			case *ssa.Next:
+				if r, ok := x.Iter.(*ssa.Range); ok && fieldOf(r.X) == fDSinks {
+					return true
+				}
+			}
+			return false
+		}
+		return w(v, 0)
+	}
+	for _, fn := range c.P.universe {
+		if !strings.HasPrefix(fnPkgPath(fn), modPath+"/run") || anchorName(fn) == aNewReloadO {
+			continue
+		}
+		var states map[ssa.Instruction]int
+		for _, site := range callsIn(fn) {
+			cc := site.Common()
+			if !cc.IsInvoke() || typeName(cc.Value.Type()) != "base.BufferReceiverSink" || !fromSlot(cc.Value) {
+				continue
+			}
+			nCalls++
+			if states == nil {
+				states = lockStates(fn, rbLockClass)
+			}
+			c.check(states[site] >= 1, "C17.R1", fn, "call of "+cc.Method.Name()+" on a downstream sink under downstreamMutex", site.Pos(),
+				"the lock is held at the call", "a downstream sink taken from its slot is used after the lock was released: a reload in between shuts its orchestrator down (send on closed channel / lost flush)")
+		}
+	}
+	c.floor("C17.R1", "calls on downstream sinks", nCalls, 3)
 }
 
 func ruleC17R2(c *Ctx) {
